@@ -55,6 +55,8 @@ type Exec struct {
 	srcCache  map[string][]string
 	exprErrs  []string
 	entryTmp  *State
+	coverCnt  map[string]int
+	pruned    int
 }
 
 func (ex *Exec) entryContent(a *ArrObj) Content {
@@ -170,6 +172,9 @@ func (ex *Exec) globalTV(f *Frame, st *State) func(pkg *types.Package, name stri
 // oblige records a proof obligation: under st.pc, goal holds. The goal is then
 // assumed on the rest of the path.
 func (ex *Exec) oblige(f *Frame, st *State, class, name string, goal string, pos token.Pos, desc string) {
+	if st.infeasible {
+		return
+	}
 	p, src := ex.posOf(pos)
 	o := &Obligation{Name: name, Class: class, Fn: ex.name, Pos: p, Src: src, Desc: desc, Goal: goal, Inputs: ex.inputs}
 	triv := goal == "true"
@@ -181,12 +186,49 @@ func (ex *Exec) oblige(f *Frame, st *State, class, name string, goal string, pos
 	if triv {
 		o.Res = SolveResult{Status: "unsat", Backend: "syntactic"}
 		ex.obls = append(ex.obls, o)
+		ex.addCover(st, class, name, p, src)
 		return
 	}
 	o.Assumes = append([]string(nil), st.pc...)
 	o.Trace = append([]string(nil), st.trace...)
 	ex.obls = append(ex.obls, o)
+	ex.addCover(st, class, name, p, src)
 	st.assume(goal)
+}
+
+// addCover: vacuity guard for functional obligations. For the first few path
+// instances of an ensures / assert / preserved-invariant obligation the path
+// condition itself is recorded as a "cover" query that must be satisfiable for
+// at least one instance: an obligation that is only ever reached on
+// contradictory paths proves nothing.
+func (ex *Exec) addCover(st *State, class, name, pos, src string) {
+	if os.Getenv("GOVC_NO_COVER") != "" {
+		return
+	}
+	switch class {
+	case "ensures", "assert":
+	case "invariant":
+		if !strings.Contains(name, "#inv-preserved") {
+			return
+		}
+	default:
+		return
+	}
+	if ex.coverCnt == nil {
+		ex.coverCnt = map[string]int{}
+	}
+	if ex.coverCnt[name] >= 40 {
+		return
+	}
+	ex.coverCnt[name]++
+	var pc []string
+	for _, a := range st.pc {
+		if !strings.Contains(a, "(forall ") {
+			pc = append(pc, a)
+		}
+	}
+	ex.obls = append(ex.obls, &Obligation{Name: name + "#cover", Class: "cover", Fn: ex.name, Pos: pos, Src: src, Goal: "false", Expect: "sat",
+		Assumes: pc, Desc: "some path reaching this obligation is feasible (not vacuous)"})
 }
 
 // sweepOn: is this sweep class checked in frame f?
@@ -221,6 +263,12 @@ func runFunction(prog *Prog, name string, fn *ssa.Function, con *Contract) *Exec
 			panic(r)
 		}
 	}()
+	ex.w.ghostConst = prog.CS.GhostConst
+	for _, g := range sortedKeys(prog.CS.GhostFields) {
+		if !prog.CS.GhostConst[g] {
+			ex.w.ghostMutable = append(ex.w.ghostMutable, g)
+		}
+	}
 	st := newState()
 	f := ex.newFrame(fn, nil, 0, "")
 	f.con = con
@@ -398,6 +446,11 @@ func (ex *Exec) tv(f *Frame, st *State, v ssa.Value) TV {
 func (ex *Exec) runFrom(f *Frame, st *State, b *ssa.BasicBlock, idx int, prev *ssa.BasicBlock) {
 	for {
 		if ex.aborted != "" {
+			return
+		}
+		if st.infeasible {
+			// contradictory path condition: the path does not exist
+			ex.pruned++
 			return
 		}
 		if idx == 0 {
@@ -639,6 +692,7 @@ func (ex *Exec) enterBlock(f *Frame, st *State, b, prev *ssa.BasicBlock) bool {
 	checkAuto("entry")
 	checkInv("entry")
 	fs.cut[b] = true
+	st.mapEpoch++
 	// havoc loop-carried registers
 	fresh := make([]Val, len(phis))
 	for i, phi := range phis {
@@ -968,7 +1022,26 @@ func (ex *Exec) step(f *Frame, st *State, in ssa.Instruction) bool {
 		st.assume(mkNot(mkEq(u, "nil_iface")))
 		f.regs[x] = VIface{U: u, Concrete: x.X.Type(), Val: xv}
 	case *ssa.MapUpdate:
-		// maps are abstract
+		// maps are abstract: uninterpreted in (map identity, epoch, key). An
+		// update starts a new epoch in which the written key has the written
+		// value; nothing is retained about the other keys.
+		st.mapEpoch++
+		if mt, ok := under(x.Map.Type()).(*types.Map); ok {
+			mu, ku := w.fold(st, ex.val(f, st, x.Map)), w.fold(st, ex.val(f, st, x.Key))
+			ep := bvLit(uint64(st.mapEpoch), 64)
+			switch v := ex.val(f, st, x.Value).(type) {
+			case VInt:
+				if wd, ok := scalarWidth(mt.Elem()); ok && wd == v.W {
+					fn := w.st.declare(fmt.Sprintf("map_get%d", wd), []string{sortU, bvSort(64), sortU}, bvSort(wd))
+					st.assume(mkEq(app(fn, mu, ep, ku), v.T))
+				}
+			case VBool:
+				fn := w.st.declare("map_getb", []string{sortU, bvSort(64), sortU}, sortBool)
+				st.assume(mkEq(app(fn, mu, ep, ku), v.T))
+			}
+			has := w.st.declare("map_has", []string{sortU, bvSort(64), sortU}, sortBool)
+			st.assume(app(has, mu, ep, ku))
+		}
 	case *ssa.Next:
 		f.regs[x] = w.freshReg(st, x.Type(), "next", OrigMem)
 	case *ssa.Range:
@@ -976,10 +1049,22 @@ func (ex *Exec) step(f *Frame, st *State, in ssa.Instruction) bool {
 	case *ssa.Select:
 		w.note("select (outside the subset)")
 		f.regs[x] = w.freshReg(st, x.Type(), "select", OrigMem)
+		// which case fires is arbitrary, but it is one of the cases (a blocking
+		// select never yields an index outside them; -1 is the default case)
+		if t, ok := f.regs[x].(VTuple); ok && len(t.F) > 0 {
+			if iv, ok := t.F[0].(VInt); ok {
+				lo := int64(0)
+				if !x.Blocking {
+					lo = -1
+				}
+				st.assume(mkAnd(app("bvsle", bvLitI(lo, iv.W), iv.T), app("bvslt", iv.T, bvLitI(int64(len(x.States)), iv.W))))
+			}
+		}
 	case *ssa.Send:
 		w.note("channel send (outside the subset)")
 	case *ssa.Go:
 		w.note("go statement (outside the subset)")
+		st.mapEpoch++
 		seen := map[interface{}]bool{}
 		for _, a := range x.Call.Args {
 			w.havocReach(st, ex.val(f, st, a), seen)
@@ -1024,10 +1109,23 @@ func (ex *Exec) mapLookup(f *Frame, st *State, x *ssa.Lookup) Val {
 	}
 	vt := mt.Elem()
 	mu, ku := w.fold(st, m), w.fold(st, k)
+	// registries (package-level maps filled in init) are never updated later
+	// (listed assumption): epoch 0. Every other map is read at the current epoch.
+	ep := bvLit(uint64(st.mapEpoch), 64)
+	if ld, ok := x.X.(*ssa.UnOp); ok {
+		if g, ok := ld.X.(*ssa.Global); ok && g.Pkg != nil {
+			if r := ex.prog.CS.Registries[ex.prog.pkgName(g.Pkg.Pkg)+"."+g.Name()]; r != nil {
+				ep = bvLit(0, 64)
+			}
+		}
+	}
 	var v Val
 	if wd, ok := scalarWidth(vt); ok {
-		fn := w.st.declare(fmt.Sprintf("map_get%d", wd), []string{sortU, sortU}, bvSort(wd))
-		v = VInt{T: app(fn, mu, ku), W: wd}
+		fn := w.st.declare(fmt.Sprintf("map_get%d", wd), []string{sortU, bvSort(64), sortU}, bvSort(wd))
+		v = VInt{T: app(fn, mu, ep, ku), W: wd}
+	} else if _, isBool := under(vt).(*types.Basic); isBool && under(vt).(*types.Basic).Kind() == types.Bool {
+		fn := w.st.declare("map_getb", []string{sortU, bvSort(64), sortU}, sortBool)
+		v = VBool{T: app(fn, mu, ep, ku)}
 	} else {
 		v = w.freshReg(st, vt, "mapval", OrigMem)
 	}
@@ -1046,8 +1144,8 @@ func (ex *Exec) mapLookup(f *Frame, st *State, x *ssa.Lookup) Val {
 				}
 			}
 		}
-		has := w.st.declare("map_has", []string{sortU, sortU}, sortBool)
-		return VTuple{F: []Val{v, VBool{T: app(has, mu, ku)}}}
+		has := w.st.declare("map_has", []string{sortU, bvSort(64), sortU}, sortBool)
+		return VTuple{F: []Val{v, VBool{T: app(has, mu, ep, ku)}}}
 	}
 	return v
 }
@@ -1462,13 +1560,19 @@ func (ex *Exec) typeAssert(f *Frame, st *State, x *ssa.TypeAssert) bool {
 	}
 	if okT == "" {
 		// unknown dynamic type: result depends on (identity, asserted type)
-		tn := "ta_" + sanitize(types.TypeString(x.AssertedType, func(p *types.Package) string { return p.Name() }))
-		fn := w.st.declare(tn, []string{sortU}, sortBool)
+		ts := types.TypeString(x.AssertedType, func(p *types.Package) string { return p.Name() })
 		u := iv.U
 		if u == "" {
 			u = w.st.fresh("iface", sortU)
 		}
-		okT = app(fn, u)
+		if types.IsInterface(x.AssertedType) {
+			fn := w.st.declare("ta_"+sanitize(ts), []string{sortU}, sortBool)
+			okT = app(fn, u)
+		} else {
+			// a concrete type: the assertion succeeds iff it is the dynamic type
+			// (the same symbols as dyntype(x, "T") in contract expressions)
+			okT = mkEq(app(w.st.declare("dyn_type", []string{sortU}, sortU), u), w.typeConst(st, ts))
+		}
 		st.assume(mkImp(okT, mkNot(mkEq(u, "nil_iface"))))
 	}
 	if val == nil {
@@ -1718,8 +1822,12 @@ func (ex *Exec) checkFrame(f *Frame, st *State, ret *ssa.Return) {
 						}
 					}
 				}()
+				isReach := false
+				if strings.HasPrefix(m, "reach(") && strings.HasSuffix(m, ")") {
+					m, isReach = m[len("reach("):len(m)-1], true
+				}
 				e, err := parser.ParseExpr(strings.TrimSpace(m))
-				if err == nil {
+				if err == nil && !isReach {
 					if sel, ok := e.(*ast.SelectorExpr); ok {
 						base := ec.eval(sel.X)
 						if p, ok := base.V.(VPtr); ok && base.T != nil {
